@@ -141,6 +141,9 @@ impl Property for Total {
     fn run(&self, case: &ParseCase, ctx: &mut Ctx) -> Verdict {
         run_parse_total(case, ctx)
     }
+    fn json_shrinkable(&self) -> bool {
+        true
+    }
 }
 
 pub fn check() -> Check {
